@@ -83,14 +83,20 @@ func run(c *ev.Ctx) {
 		c.Broken("cannot write the seed file: %v", err)
 	}
 	units := certs.Units(cfg, seeds)
+	if cfg.ModelDepth >= 3 {
+		if got, want := certs.Level3Count(), xgen.CountAssignments(3)-xgen.CountAssignments(2); got != want {
+			c.Broken("level-3 units enumerate %d assignments, the model has %d", got, want)
+		}
+	}
 	names, _ := parentDERs()
 	c.Rule(certs.Describe(cfg, units) + fmt.Sprintf(". Each accepted certificate c is exercised, in a strict and in a permissive worker pool, with %d operation families "+
 		"(json.Marshal twice before and twice after the verification calls, JSON sub-decoders, signature checks in both directions against each accepted member of a fixed list of %d candidate parents "+
 		"(one model CA per alternative of the model's key field — the parser accepts 11 of the 26 —, the CA behind selfissued=no; plus per unit the unmutated base certificate and, for minted leaf seeds, the issuing minted CA), "+
 		"c.CheckSignature under each of the 18 algorithm values with its own and with an empty signature, VerifyHostname for %d host strings, the name collectors, SubjectAndKey, CertPool insertion + Verify (3 root/intermediate configurations over {c, Ed25519 CA, RSA CA, issuer CA, unit extras}), "+
 		"ValidateWithStupidDetail, three verifier.Graph scenarios with AddCert/AddRoot/WalkChains and Verifier.Verify, QC/Tor accessors). "+
+		"%s"+
 		"distinct_nontrivial = certificates accepted by the permissive pool (states = candidate inputs evaluated, both pools)",
-		len(opTable)-2, len(names), len(hostnames)))
+		len(opTable)-2, len(names), len(hostnames), lightNote(units)))
 	c.Assume("oracle = no panic (recover; for library-started goroutines: death of the worker process, attributed through a progress file), json.Marshal twice byte-identical and json.Valid; a json.Marshal that returns an error both times is counted, not reported (the statement only demands completion)",
 		"a stalled worker (no progress for 60 s) is killed and the item re-run once in an isolated process with a 120 s limit; only a second stall is reported as a hang",
 		"generators are deterministic: the parent cross-checks an FNV checksum of every unit's inputs between the strict and the permissive pool",
@@ -114,6 +120,21 @@ func run(c *ev.Ctx) {
 	res := certs.RunPool(c, certs.PoolConfig{ID: id, Modes: []string{"strict", "permissive"}, Procs: procs, Deadline: c.Start.Add(budget), Ops: opTable},
 		units, certs.Order(units, c.Seed))
 	report(c, units, res)
+}
+
+// lightNote describes the reduced operation set of the units marked Light (thorough tier only).
+func lightNote(units []certs.Unit) string {
+	n := 0
+	for _, u := range units {
+		if u.Light {
+			n++
+		}
+	}
+	if n == 0 {
+		return ""
+	}
+	return fmt.Sprintf("The %d units of the third model level, of the byte-level menus of seeds outside the quick list and of the pair menus run the REDUCED set: json.Marshal twice before/after, "+
+		"CheckSignatureFrom + CheckSignatureFromKey against every candidate parent, self check, own and empty signature under the certificate's own algorithm, VerifyHostname, name collectors, SubjectAndKey, QC/Tor, CertPool + 2 Verify configurations, the single-certificate graph scenario. ", n)
 }
 
 func report(c *ev.Ctx, units []certs.Unit, res *certs.Result) {
